@@ -212,7 +212,7 @@ Fixpoint spec_ok (md : smode) (base cands : list db) (seen : list (string * list
            | MStrict => forallb (fun d => match spec_exec d st with SpecErr _ => true | SpecOk _ => false end) cands
            | _ => true
            end) &&
-          spec_ok md base (if is_lax md then flat_map (fun d => stmt_prefixes d st) cands else cands) seen gmax er orr
+          spec_ok md base (if is_lax md then cands ++ flat_map (fun d => stmt_prefixes d st) cands else cands) seen gmax er orr
       | OBpanic => false
       end
   | HEv EvFlush :: er, HOut OBok :: orr => spec_ok md base cands seen gmax er orr
